@@ -1139,7 +1139,8 @@ void filter_mapping (svalue_t * arg, int num_arg) {
 mapping_t* compose_mapping (mapping_t * m1, mapping_t * m2, unsigned short flag) {
 
   mapping_node_t *elt, *elt2, **a, **b, **prev;
-  unsigned short j = m1->table_size, deleted = 0;
+  unsigned short j = m1->table_size;
+  unsigned int deleted = 0; /* up to m1->count nodes, which is not limited to 16 bits */
   unsigned short mask;
   mapping_t *self_copy = NULL;
   svalue_t *sv;
